@@ -32,7 +32,7 @@ def run_array_job(binary, ranks, lens):
 
 
 def parse_rank(lines):
-    d = {"begin": [], "owners": {}, "mine": {}, "forall": {}}
+    d = {"begin": [], "owners": {}, "mine": {}, "forall": {}, "size": {}}
     for l in lines:
         w = l.split()
         if not w:
@@ -161,6 +161,68 @@ def run(tier, seed, model_ok=True):
     res.exhaustive = True
     res.traces_validated = res.evaluations
 
+    # ---- explicit resize: array(a) then resize(b) must give the layout of a fresh array(b)
+    def dor(R):
+        pairs = [(a0, b0) for a0 in (0, 1, R - 1, R, R + 1, 2 * R + 1, 13) for b0 in (0, 1, R - 1, R + 1, 2 * R - 1, 10, 17) if a0 >= 0 and b0 >= 0]
+        nodes, ppn = factor_layout(R)
+        sr = C.run_sim(binary, ["resize", ",".join(str(p[0]) for p in pairs), ",".join(str(p[1]) for p in pairs)], nodes=nodes, ppn=ppn, want_log=False, timeout=300)
+        return R, pairs, sr
+
+    rsizes = [1, 2, 3, 4, 5, 8] if tier == "quick" else list(range(1, 13))
+    for R, pairs, sr in C.pmap(dor, rsizes):
+        per_rank = {r: parse_rank(sr.outs.get(r, [])) for r in range(R)}
+        mt = model_tables([(R, b0) for (_, b0) in pairs]) if model_ok else {}
+        for k, (a0, b0) in enumerate(pairs):
+            res.evaluations += 1
+            done = all(k in per_rank[r]["forall"] for r in range(R))
+            if not done:
+                res.oracle_failures.append({"what": f"array({a0}) then resize({b0}) on {R} ranks did not complete: {sr.verdict} {sr.stderr[-200:]}",
+                                            "signature": "array-resize-run-failed", "case": {"ranks": R, "len": b0, "from": a0, "mode": "resize"}})
+                break
+            # re-key the parsed lines by length so that check_case can be reused
+            pr = {r: {"owners": {b0: per_rank[r]["owners"].get(k)}, "mine": {b0: per_rank[r]["mine"].get(k, [])}, "forall": {b0: per_rank[r]["forall"].get(k, [])}} for r in range(R)}
+            n0 = len(res.oracle_failures)
+            if model_ok:
+                check_case(res, R, b0, pr, mt[(R, b0)])
+            for f in res.oracle_failures[n0:]:
+                f["signature"] = "array-resize " + f["signature"]
+                f["case"]["from"] = a0
+            if a0 % R != b0 % R:
+                res.distinct.add(("resize", R, a0, b0))
+            res.count("resize-cases")
+
+    # ---- stored only on the owner
+    def dos(R):
+        nodes, ppn = factor_layout(R)
+        return R, C.run_sim(binary, ["stored", 120 if tier == "quick" else 600, seed], nodes=nodes, ppn=ppn, want_log=False, timeout=300)
+
+    for R, sr in C.pmap(dos, [1, 2, 3, 4, 6] if tier == "quick" else list(range(1, 10))):
+        res.evaluations += 1
+        if sr.verdict != "ok":
+            res.oracle_failures.append({"what": f"stored-on-owner harness failed: {sr.verdict} {sr.stderr[-200:]}", "signature": "stored-run-failed", "case": {"ranks": R, "mode": "stored"}})
+            continue
+        seen = {"map": {}, "set": {}, "dset": {}}
+        sizes = None
+        for r in range(R):
+            for line in sr.outs.get(r, []):
+                w = line.split()
+                if w[0] == "sizes":
+                    sizes = [int(x) for x in w[1:]]
+                    continue
+                for tok in w[1:]:
+                    key, own = tok.rsplit(":", 1)
+                    if int(own) != r:
+                        res.oracle_failures.append({"what": f"{w[0]}: key {key} is stored on rank {r} but its owner is rank {own}", "signature": "stored-off-owner " + w[0], "case": {"ranks": R, "mode": "stored", "key": key}})
+                    seen[w[0]][key] = seen[w[0]].get(key, 0) + 1
+        for name, i in (("map", 0), ("set", 1), ("dset", 2)):
+            dup = [k for k, c in seen[name].items() if c > 1]
+            if dup:
+                res.oracle_failures.append({"what": f"{name}: key {dup[0]} is presented by for_all {seen[name][dup[0]]} times across the communicator", "signature": "stored-twice " + name, "case": {"ranks": R, "mode": "stored", "key": dup[0]}})
+            if sizes and sizes[i] != len(seen[name]):
+                res.oracle_failures.append({"what": f"{name}: size() = {sizes[i]} but {len(seen[name])} distinct keys are stored", "signature": "stored-size " + name, "case": {"ranks": R, "mode": "stored"}})
+        res.distinct.add(("stored", R))
+        res.count("stored-keys", sum(len(v) for v in seen.values()))
+
     # ---- hash owners
     nkeys = 1500 if tier == "quick" else 10000
     sizes = [1, 2, 3, 4, 5, 7, 8] if tier == "quick" else list(range(1, 17))
@@ -202,11 +264,18 @@ def replay(data):
     """re-run the recorded (ranks, len); returns True when the failure does NOT reproduce"""
     case = data.get("case") or {}
     binary, err = C.build_harness("part")
-    R, L = case.get("ranks"), case.get("len")
-    if binary is None or R is None or L is None:
+    R, L = case.get("ranks"), case.get("len", 0)
+    if binary is None or R is None:
         print("replay: nothing executable recorded:", data.get("no_longer_checks"))
         return False
-    sr = run_array_job(binary, R, [L])
+    if case.get("mode") == "resize":
+        nodes, ppn = factor_layout(R)
+        sr = C.run_sim(binary, ["resize", str(case.get("from", 0)), str(L)], nodes=nodes, ppn=ppn, want_log=False)
+    elif case.get("mode") == "stored":
+        nodes, ppn = factor_layout(R)
+        sr = C.run_sim(binary, ["stored", 120, data.get("seed", 1)], nodes=nodes, ppn=ppn, want_log=False)
+    else:
+        sr = run_array_job(binary, R, [L])
     print("verdict", sr.verdict, sr.stderr[-300:])
     for r in range(R):
         print(r, sr.outs.get(r))
